@@ -231,6 +231,8 @@ def build(tier, mutate=None):
     units.append(Unit("parse/HomeKitService.from_service_info", c19w.mdns_parse_unit(C), c19w.mdns_parse_unit(R),
                       bounds={"address lists": c19w.ADDRS, "key spelling": "lower/upper/mixed", "id spelling": "lower/upper", "numbers": "present/absent"},
                       regions=["parsed", "refused"], diff_sample=400))
+    units.append(Unit("startup/_async_update_from_cache", c19w.startup_cache_unit(C), c19w.startup_cache_unit(R),
+                      bounds={"cached PTR records": c19w.CACHE_ORDERS, "pairing loaded": "yes / no"}))
     return units
 
 
